@@ -1216,7 +1216,54 @@ spec fn cleanup_reached(s: JobState) -> bool {
 spec fn gates_ok(jobs: Seq<NodeInfo>, dag: &GraphType) -> bool {
     &&& forall|i: int| 0 <= i < jobs.len() && needs_up(#[trigger] jobs[i].state) ==> all_up_done(dag, jobs, i as usize)
     &&& forall|i: int| 0 <= i < jobs.len() && cleanup_reached(#[trigger] jobs[i].state) ==> all_down_done(dag, jobs, i as usize)
+    &&& blank_skips_ok(jobs, dag)
 }
+
+/// an Ephemeral job that was skipped without anything to record (C10/C06: the assert in new_history)
+spec fn skipped_blank(j: NodeInfo) -> bool {
+    j.state == JobState::Ephemeral(JobStateEphemeral::FinishedSkipped) && j.history_output is None
+}
+
+/// G4: such a job has only Ephemeral jobs depending on it, directly or indirectly
+spec fn blank_skips_ok(jobs: Seq<NodeInfo>, dag: &GraphType) -> bool {
+    forall|i: int| #![trigger skipped_blank(jobs[i])] 0 <= i < jobs.len() && skipped_blank(jobs[i]) ==> all_eph_down(dag, jobs, i as usize)
+}
+
+proof fn lemma_blank_empty()
+    ensures forall|jobs: Seq<NodeInfo>, dag: &GraphType| jobs.len() == 0 ==> #[trigger] blank_skips_ok(jobs, dag),
+{
+}
+
+proof fn lemma_jobs_step_same_kind(a: Seq<NodeInfo>, b: Seq<NodeInfo>)
+    requires a =~= b || jobs_step(a, b),
+    ensures forall|i: int| 0 <= i < a.len() ==> same_kind(a[i].state, (#[trigger] b[i]).state),
+{
+    assert forall|i: int| 0 <= i < a.len() implies same_kind(a[i].state, (#[trigger] b[i]).state) by {
+        if !(a =~= b) { assert(lc_le(a[i].state, b[i].state)); }
+    }
+}
+
+proof fn lemma_blank_none(jobs: Seq<NodeInfo>, dag: &GraphType)
+    requires forall|i: int| #![trigger skipped_blank(jobs[i])] 0 <= i < jobs.len() ==> !skipped_blank(jobs[i]),
+    ensures blank_skips_ok(jobs, dag),
+{
+}
+
+/// G4 survives: fewer dependencies, more jobs, same kinds
+proof fn lemma_blank_skips_sub(pre: Seq<NodeInfo>, post: Seq<NodeInfo>, dag: &GraphType, dag2: &GraphType)
+    requires
+        blank_skips_ok(pre, dag), pre.len() <= post.len(), edges_in_range(dag, pre.len()),
+        forall|x: usize, y: usize| #![trigger dag2.has_edge(x, y)] dag2.has_edge(x, y) ==> dag.has_edge(x, y),
+        forall|i: int| 0 <= i < pre.len() ==> same_kind(pre[i].state, (#[trigger] post[i]).state),
+        forall|i: int| #![trigger skipped_blank(post[i])] 0 <= i < post.len() && skipped_blank(post[i]) ==> i < pre.len() && skipped_blank(pre[i]),
+    ensures blank_skips_ok(post, dag2),
+{
+    assert forall|i: int| #![trigger skipped_blank(post[i])] 0 <= i < post.len() && skipped_blank(post[i]) implies all_eph_down(dag2, post, i as usize) by {
+        assert(skipped_blank(pre[i]));
+        lemma_all_eph_down_sub(dag, dag2, pre, post, i as usize);
+    }
+}
+
 
 /// the structural part of the representation invariant (everything but W5)
 spec fn core_struct(jobs: Seq<NodeInfo>, m: Map<String, usize>, dag: &GraphType, ready: Set<String>, cleanup: Set<String>, fin: bool) -> bool {
@@ -1239,8 +1286,20 @@ proof fn lemma_gates_after_write(pre: Seq<NodeInfo>, post: Seq<NodeInfo>, dag: &
         finished(pre[n].state) ==> finished(post[n].state),
         needs_up(post[n].state) ==> needs_up(pre[n].state) || all_up_done(dag, pre, n as usize),
         cleanup_reached(post[n].state) ==> cleanup_reached(pre[n].state) || all_down_done(dag, pre, n as usize),
+        same_kind(pre[n].state, post[n].state),
+        skipped_blank(post[n]) ==> skipped_blank(pre[n]) || all_eph_down(dag, pre, n as usize),
     ensures gates_ok(post, dag),
 {
+    assert(blank_skips_ok(post, dag)) by {
+            assert forall|i: int| 0 <= i < pre.len() implies same_kind(pre[i].state, (#[trigger] post[i]).state) by {
+            if i != n { assert(post[i].state == pre[i].state); }
+        }
+        assert forall|i: int| #![trigger skipped_blank(post[i])] 0 <= i < post.len() && skipped_blank(post[i]) implies all_eph_down(dag, post, i as usize) by {
+            if i != n { assert(post[i].state == pre[i].state && post[i].history_output == pre[i].history_output); assert(skipped_blank(pre[i])); }
+            assert(all_eph_down(dag, pre, i as usize));
+            lemma_all_eph_down_sub(dag, dag, pre, post, i as usize);
+        }
+    }
     assert forall|i: int| 0 <= i < post.len() && needs_up(#[trigger] post[i].state) implies all_up_done(dag, post, i as usize) by {
         assert(all_up_done(dag, pre, i as usize)) by { if i != n { assert(post[i].state == pre[i].state); } }
         assert forall|u: usize| #![trigger dag.is_nbr(i as usize, Direction::Incoming, u)] dag.is_nbr(i as usize, Direction::Incoming, u)
@@ -1269,8 +1328,11 @@ proof fn lemma_gates_same_status(pre: Seq<NodeInfo>, post: Seq<NodeInfo>, dag: &
         forall|i: int| 0 <= i < pre.len() ==> (finished(pre[i].state) ==> finished(#[trigger] post[i].state)),
         forall|i: int| 0 <= i < pre.len() && needs_up(#[trigger] post[i].state) ==> needs_up(pre[i].state) || all_up_done(dag, pre, i as usize),
         forall|i: int| 0 <= i < pre.len() && cleanup_reached(#[trigger] post[i].state) ==> cleanup_reached(pre[i].state) || all_down_done(dag, pre, i as usize),
+        forall|i: int| 0 <= i < pre.len() ==> same_kind(pre[i].state, (#[trigger] post[i]).state),
+        forall|i: int| #![trigger skipped_blank(post[i])] 0 <= i < post.len() && skipped_blank(post[i]) ==> skipped_blank(pre[i]),
     ensures gates_ok(post, dag2),
 {
+    lemma_blank_skips_sub(pre, post, dag, dag2);
     assert forall|i: int| 0 <= i < post.len() && needs_up(#[trigger] post[i].state) implies all_up_done(dag2, post, i as usize) by {
         assert(all_up_done(dag, pre, i as usize));
         assert forall|u: usize| #![trigger dag2.is_nbr(i as usize, Direction::Incoming, u)] dag2.is_nbr(i as usize, Direction::Incoming, u)
@@ -1382,6 +1444,40 @@ proof fn lemma_all_eph_down_stable(d0: &GraphType, d1: &GraphType, j0: Seq<NodeI
         }
         lemma_eph_closed_transfer(d1, d0, j1, j0, s, n);
     }
+}
+
+/// a closed set of Ephemeral jobs stays one when dependencies are removed, jobs are added, kinds are kept
+proof fn lemma_all_eph_down_sub(d0: &GraphType, d1: &GraphType, j0: Seq<NodeInfo>, j1: Seq<NodeInfo>, n: usize)
+    requires
+        forall|x: usize, y: usize| #![trigger d1.has_edge(x, y)] d1.has_edge(x, y) ==> d0.has_edge(x, y),
+        j0.len() <= j1.len(), forall|i: int| 0 <= i < j0.len() ==> same_kind(j0[i].state, (#[trigger] j1[i]).state),
+        edges_in_range(d0, j0.len()), n < j0.len(), all_eph_down(d0, j0, n),
+    ensures all_eph_down(d1, j1, n),
+{
+    let s = choose|s: Set<usize>| #![trigger s.contains(n)] s.contains(n) && eph_closed_set(d0, j0, s);
+    let s2 = s.filter(|v: usize| v < j0.len());
+    assert forall|v: usize| #![trigger s2.contains(v)] s2.contains(v) implies j1[v as int].state is Ephemeral by {
+        assert(s.contains(v) && v < j0.len());
+        assert(same_kind(j0[v as int].state, j1[v as int].state));
+    }
+    assert forall|v: usize, d: usize| #![trigger s2.contains(v), d1.has_edge(v, d)] s2.contains(v) && d1.has_edge(v, d) implies s2.contains(d) by {
+        assert(s.contains(v) && v < j0.len());
+        assert(d0.has_edge(v, d));
+        lemma_eph_closed_member(d0, j0, s, v, d);
+    }
+    assert(s2.contains(n) && eph_closed_set(d1, j1, s2));
+}
+
+/// an Ephemeral job nothing depends on
+proof fn lemma_no_down_all_eph(dag: &GraphType, jobs: Seq<NodeInfo>, n: usize)
+    requires jobs[n as int].state is Ephemeral, !has_down(dag, n),
+    ensures all_eph_down(dag, jobs, n),
+{
+    let s = set![n];
+    assert forall|v: usize, d: usize| #![trigger s.contains(v), dag.has_edge(v, d)] s.contains(v) && dag.has_edge(v, d) implies s.contains(d) by {
+        assert(dag.is_nbr(n, Direction::Outgoing, d));
+    }
+    assert(s.contains(n) && eph_closed_set(dag, jobs, s));
 }
 
 proof fn lemma_eph_closed_transfer(d0: &GraphType, d1: &GraphType, j0: Seq<NodeInfo>, j1: Seq<NodeInfo>, s: Set<usize>, n: usize)
@@ -1575,6 +1671,7 @@ proof fn lemma_write_ok(pre: Seq<NodeInfo>, post: Seq<NodeInfo>, m: Map<String, 
         lc_le(pre[n].state, post[n].state), out_wf_one(post[n]),
         needs_up(post[n].state) ==> needs_up(pre[n].state) || all_up_done(dag, pre, n as usize),
         cleanup_reached(post[n].state) ==> cleanup_reached(pre[n].state) || all_down_done(dag, pre, n as usize),
+        skipped_blank(post[n]) ==> skipped_blank(pre[n]) || all_eph_down(dag, pre, n as usize),
         pre[n].history_output is Some ==> post[n].history_output == pre[n].history_output,
         is_ready(pre[n].state) == is_ready(post[n].state) ==> r1 =~= r0,
         is_ready(pre[n].state) && !is_ready(post[n].state) ==> r1 =~= r0.remove(pre[n].job_id),
@@ -1765,6 +1862,7 @@ proof fn lemma_arm_write(oldj: Seq<NodeInfo>, pre: Seq<NodeInfo>, post: Seq<Node
         lc_le(pre[n].state, post[n].state), out_wf_one(post[n]),
         needs_up(post[n].state) ==> needs_up(pre[n].state) || all_up_done(dag, pre, n as usize),
         cleanup_reached(post[n].state) ==> cleanup_reached(pre[n].state) || all_down_done(dag, pre, n as usize),
+        skipped_blank(post[n]) ==> skipped_blank(pre[n]) || all_eph_down(dag, pre, n as usize),
         pre[n].history_output is Some ==> post[n].history_output == pre[n].history_output,
         is_ready(pre[n].state) == is_ready(post[n].state) ==> r1 =~= r0,
         is_ready(pre[n].state) && !is_ready(post[n].state) ==> r1 =~= r0.remove(pre[n].job_id),
@@ -2113,6 +2211,13 @@ proof fn lemma_add_node_ok(pre: Seq<NodeInfo>, post: Seq<NodeInfo>, m0: Map<Stri
     broadcast use group_verif_axioms;
     let n = pre.len() as int;
     let nid = post[n].job_id;
+    assert(blank_skips_ok(post, dag1)) by {
+        assert forall|i: int| 0 <= i < pre.len() implies same_kind(pre[i].state, (#[trigger] post[i]).state) by { assert(post[i] == pre[i]); }
+        assert forall|i: int| #![trigger skipped_blank(post[i])] 0 <= i < post.len() && skipped_blank(post[i]) implies i < pre.len() && skipped_blank(pre[i]) by {
+            if i < n { assert(post[i] == pre[i]); }
+        }
+        lemma_blank_skips_sub(pre, post, dag0, dag1);
+    }
     assert(!m0.contains_key(nid)) by {
         if m0.contains_key(nid) { let i = m0[nid] as int; assert(pre[i].job_id == nid); }
     }
@@ -2235,7 +2340,7 @@ proof fn lemma_upfail_kept(a: Seq<Signal>, b: Seq<Signal>, d: usize)
 /// "ready to run" was decided with all upstreams finished (C02); "skip" of an Ephemeral job that is not up to date
 /// was decided because only Ephemeral jobs depend on it (C06: the assert in the JobFinishedSkip handler)
 spec fn has_down(dag: &GraphType, n: usize) -> bool {
-    exists|d: usize| dag.is_nbr(n, Direction::Outgoing, d)
+    exists|d: usize| #![trigger dag.is_nbr(n, Direction::Outgoing, d)] dag.is_nbr(n, Direction::Outgoing, d)
 }
 
 #[verifier::opaque]
